@@ -166,11 +166,14 @@ let k3_line (line : string) : string =
             c_sched = natlist (get fs "sched");
             c_fuel = nat_of_int (int_of_string (get fs "fuel")) } in
   let o = exec c in
+  (* parameters as they stand after the stages, before the trailing setters *)
+  let rec drop_last2 = function [] | [_] | [_; _] -> [] | x :: r -> x :: drop_last2 r in
+  let omid = exec { c with c_ops = drop_last2 c.c_ops; c_term = TCount; c_sched = []; c_fuel = O } in
   let all_calls = List.sort call_cmp (List.concat o.o_rlog) in
   let seqlog = if o.o_sequential then str_list call_str (List.concat o.o_rlog) else "-" in
   let sites = sites_of c.c_ops (match c.c_term with TForEach -> true | _ -> false) in
-  Printf.sprintf "id=%s sites=%s seqlog=%s res=%s params=%s kind=%s seq=%d consumed=%d clog=%s calls=%s spawned=%d chunks=%s pulls=%s"
-    (get fs "id") (if sites = [] then "-" else String.concat "," sites) seqlog (res_str o.o_result) (params_str o.o_params) (kind_str o.o_kind)
+  Printf.sprintf "id=%s pmid=%s sites=%s seqlog=%s res=%s params=%s kind=%s seq=%d consumed=%d clog=%s calls=%s spawned=%d chunks=%s pulls=%s"
+    (get fs "id") (params_str omid.o_params) (if sites = [] then "-" else String.concat "," sites) seqlog (res_str o.o_result) (params_str o.o_params) (kind_str o.o_kind)
     (if o.o_sequential then 1 else 0) (int_of_nat o.o_consumed)
     (str_list call_str o.o_clog) (str_list call_str all_calls)
     (int_of_nat o.o_spawned) (str_list (fun n -> string_of_int (int_of_nat n)) o.o_chunks)
